@@ -7,6 +7,13 @@ From Ink.Base Require Export Text Res I32.
 Local Open Scope Z_scope.
 
 Inductive ovf_mode := Unchecked | Wrapping.
+
+(* two more facts READ from the source (ink_list.rs, list_definition.rs, control_logic.rs):
+   what a copied list remembers as its origin names, and how ties between list
+   entries are resolved (by HashMap iteration order, or by the total order
+   value / origin name / item name of `cmp_entries`) — see Data/InkList.v *)
+Inductive origin_copy := CopyRaw | CopyEffective.
+Inductive tie_break := TieIteration | TieTotal.
 Inductive div_mode := DivUnchecked | DivChecked.
 
 Record int_sem := mkIntSem {
